@@ -293,8 +293,13 @@ theorem applyAll_entEvents {s s' : Ca} {r : Rcn} {rc : Rc} (hg : get s.classes r
     cases ha
     exact ⟨hb, hc, hd, he⟩
 
+/-- The entitlements that lead to a new class (each needs a new key). -/
+def newEntitlements (s : Ca) (p : Handle) (ents : List Entitlement) : List Entitlement :=
+  ents.filter fun e => (s.findParentRc p e.rcn).isNone
+
 theorem entitlementLoop_ok (s : Ca) (p : Handle) (now : Int) (hrepo : s.hasRepo = true) :
-    ∀ (ents : List Entitlement) (next : Nat) (fresh : List KeyId), ents.length ≤ fresh.length →
+    ∀ (ents : List Entitlement) (next : Nat) (fresh : List KeyId),
+      (newEntitlements s p ents).length ≤ fresh.length →
       ∃ evs, entitlementLoop s p now ents next fresh = .ok evs := by
   intro ents
   induction ents with
@@ -305,13 +310,16 @@ theorem entitlementLoop_ok (s : Ca) (p : Handle) (now : Int) (hrepo : s.hasRepo 
     cases hf : s.findParentRc p ent.rcn with
     | some q =>
       obtain ⟨rcn, rc⟩ := q
-      obtain ⟨rest, hrest⟩ := ih next fresh (by simp only [List.length_cons] at hlen; omega)
+      obtain ⟨rest, hrest⟩ := ih next fresh (by
+        simpa [newEntitlements, List.filter_cons, hf] using hlen)
       simp only [hrest]; exact ⟨_, rfl⟩
     | none =>
+      have hlen' : (newEntitlements s p ents).length + 1 ≤ fresh.length := by
+        simpa [newEntitlements, List.filter_cons, hf] using hlen
       cases fresh with
-      | nil => simp at hlen
+      | nil => simp at hlen'
       | cons k fresh' =>
-        obtain ⟨rest, hrest⟩ := ih (next + 1) fresh' (by simp only [List.length_cons] at hlen; omega)
+        obtain ⟨rest, hrest⟩ := ih (next + 1) fresh' (by simp only [List.length_cons] at hlen'; omega)
         simp only [hrest]; exact ⟨_, rfl⟩
 
 /-- The class a new entitlement creates: `ResourceClass::create` with the request already made. -/
@@ -517,7 +525,7 @@ the parent afterwards are exactly the listed ones – the old ones with their re
 new ones created with their request – and everything else is untouched. -/
 theorem updEnt_spec {s : Sys} (hr : Reachable s) (hrepo : s.ca.hasRepo = true) (hnl : NoLimits s.ca)
     (p : Handle) (hu : UniqueNames s.ca p) (ents : List Entitlement) (hndE : (ents.map (·.rcn)).Nodup)
-    (now : Int) (fresh : List KeyId) (hlen : ents.length ≤ fresh.length) :
+    (now : Int) (fresh : List KeyId) (hlen : (newEntitlements s.ca p ents).length ≤ fresh.length) :
     ∃ s', s.next (.updateEntitlements p ents now fresh) = s' ∧
       Reachable s' ∧ s'.ca.hasRepo = true ∧ NoLimits s'.ca ∧ UniqueNames s'.ca p ∧
       (∀ r rc', get s'.ca.classes r = some rc' → EntOrigin s.ca p ents now r rc') ∧
